@@ -2,6 +2,8 @@ mod builtins;
 mod runtime;
 
 pub use builtins::{register_builtin_tools, BuiltinToolConfig};
+#[cfg(rip_verif)]
+pub use builtins::verif_capture_stream;
 pub use runtime::{
     CheckpointHook, CheckpointRecord, CheckpointRequest, CheckpointRewindRecord, ToolHandler,
     ToolInvocation, ToolOutput, ToolRegistry, ToolRunner,
